@@ -118,6 +118,9 @@ func classifyPanic(v any) PanicInfo {
 			}
 		} else if seenPanic && strings.HasPrefix(f.Function, repoMod) {
 			pi.Func = strings.TrimPrefix(f.Function, repoMod)
+			if os.Getenv("C05X_LINES") != "" { // development aid: split classes by line
+				pi.Func += fmt.Sprintf(":%d", f.Line)
+			}
 			break
 		}
 		if !more {
@@ -367,7 +370,7 @@ const (
 var reScheme = regexp.MustCompile(`^[A-Za-z][A-Za-z0-9+.\-]*:`)
 
 // wfStatement is the C06 oracle: returns the list of shape defects of one yielded statement.
-func wfStatement(st rdf.Statement, mustAbs bool) []string {
+func wfStatement(st rdf.Statement, mustAbs, strictDatatype bool) []string {
 	var bad []string
 	if st == nil {
 		return []string{"statement-nil"}
@@ -410,7 +413,10 @@ func wfStatement(st rdf.Statement, mustAbs bool) []string {
 		bnode("object", v)
 	case rdf.Literal:
 		if v.Datatype == "" {
-			bad = append(bad, "literal-without-datatype")
+			// without a base IRI the relative reference <> (rdf:datatype="") legitimately yields the empty IRI
+			if mustAbs || strictDatatype {
+				bad = append(bad, "literal-without-datatype")
+			}
 		} else {
 			abs("datatype", v.Datatype)
 		}
@@ -435,6 +441,9 @@ func wfStatement(st rdf.Statement, mustAbs bool) []string {
 			}
 			if tag.BaseDirection == "" {
 				bad = append(bad, "empty-base-direction")
+			}
+			if tag.Language == "" {
+				bad = append(bad, "empty-language-in-directional-tag")
 			}
 		default:
 			bad = append(bad, fmt.Sprintf("literal-tag-kind-%T", tag))
@@ -497,7 +506,7 @@ func runDecoder(format string, o Opts, r io.Reader) (out Outcome) {
 		if p := recover(); p != nil {
 			pi := classifyPanic(p)
 			if os.Getenv("C05X_STACK") != "" {
-				fmt.Fprintf(os.Stderr, "panic: %v\n%s\n", p, debug.Stack())
+				fmt.Fprintf(realStderr, "panic: %v\n%s\n", p, debug.Stack())
 			}
 			out.Panic = &pi
 			out.Verdict = "panic"
@@ -520,7 +529,7 @@ func runDecoder(format string, o Opts, r io.Reader) (out Outcome) {
 	for d.Next() {
 		st := d.Statement()
 		touchAccessors(d)
-		for _, w := range wfStatement(st, mustAbs) {
+		for _, w := range wfStatement(st, mustAbs, o.Base || format == "rdfjson") {
 			if !wfSeen[w] {
 				wfSeen[w] = true
 				out.WF = append(out.WF, w+" in "+stmtCanon(st, bn))
